@@ -80,6 +80,12 @@ proof fn flags400_facts(ym: int)
         ("ndays += ((year * 1461) >> 2)", "        proof { let a = (year * 1461) as i32; assert(0 <= year < 400 * 800);\n"
          "          assert(a >> 2u32 == a / 4) by(bit_vector) requires a >= 0;\n"
          "          assert(div_100 >> 2u32 == div_100 / 4) by(bit_vector) requires div_100 >= 0; }")])
+    # the provided method of trait Datelike (what callers outside the crate get for NaiveDate), at Self = NaiveDate (R6)
+    u.prove('src/traits.rs', 'num_days_from_ce', 'pub trait Datelike: Sized {', cid='NaiveDate::Datelike__num_days_from_ce',
+            rename='Datelike__num_days_from_ce', hints=[
+        ("ndays += ((year * 1461) >> 2)", "        proof { let a = (year * 1461) as i32; assert(0 <= year < 400 * 800);\n"
+         "          assert(a >> 2u32 == a / 4) by(bit_vector) requires a >= 0;\n"
+         "          assert(div_100 >> 2u32 == div_100 / 4) by(bit_vector) requires div_100 >= 0; }")])
     u.prove(F, 'signed_duration_since', IMPL, cid='NaiveDate::signed_duration_since', hints=[
         ("let days = (year1_div_400", "        proof { dn_range_consts(); dn_cycle(v_year(self), v_ord(self)); dn_cycle(v_year(rhs), v_ord(rhs)); dn_cycle(MIN_Y(), 1); dn_cycle(MAX_Y(), 365); in_range(v_year(self), v_ord(self)); in_range(v_year(rhs), v_ord(rhs)); }")])
     for n in ['checked_add_days', 'checked_sub_days', 'checked_add_signed', 'checked_sub_signed']:
